@@ -1,11 +1,11 @@
 SPECIFICATION Spec
 CONSTANTS
-  FlagMode = "edge"
-  RdLen = 3
-  WrLen = 3
-  Durs = {1}
-  RaPre = 3
-  HpMaxDev = 2
-  Kinds = {"sa", "ra", "kick", "bl", "rd", "wr", "hp", "sv"}
+  FlagMode = "all"
+  RdLen = 4
+  WrLen = 4
+  Durs = {0, 1, 2}
+  RaPre = 4
+  HpMaxDev = 5
+  Kinds = {"sa", "kick", "bl", "sv"}
 INVARIANTS SaUnaffected SaNoLeak SaIff SaMonotone RaSdpIff RaBound RdSound WrSound BlSound HpSound SvSound
 ACTION_CONSTRAINT EmitS
